@@ -293,6 +293,15 @@ Section Reg.
     | _, _ => false
     end.
 
+  (* diagnostics for replay files: index of the first step on which model and implementation differ *)
+  Fixpoint first_bad_hist (st : list sreg) (ss : list step) (os : list obs) (i : N) : option N :=
+    match ss, os with
+    | [], [] => None
+    | s :: ss', o :: os' =>
+        let (b, st') := agree_step st s o in if b then first_bad_hist st' ss' os' (i + 1) else Some i
+    | _, _ => Some i
+    end.
+
   (* CRDT-level traces: replicas of RegisterCrdt, every step followed by a full state dump *)
   Inductive cstep := CApply (i : nat) (o : op) | CMerge (i j : nat).
   Record cobs := mkcobs { c_res : res; c_dag : list N; c_orph : list N; c_read : list (N * list N) }.
@@ -318,6 +327,13 @@ Section Reg.
     | [], [] => true
     | s :: ss', o :: os' => let (b, st') := agree_cstep st s o in b && agree_chist st' ss' os'
     | _, _ => false
+    end.
+  Fixpoint first_bad_chist (st : list crdt) (ss : list cstep) (os : list cobs) (i : N) : option N :=
+    match ss, os with
+    | [], [] => None
+    | s :: ss', o :: os' =>
+        let (b, st') := agree_cstep st s o in if b then first_bad_chist st' ss' os' (i + 1) else Some i
+    | _, _ => Some i
     end.
 End Reg.
 
